@@ -35,6 +35,7 @@ type Config struct {
 	ReverseMaps  bool
 	NoMerge      bool
 	NoSummConc   bool
+	GoDeferred   bool // goroutines run at the next WaitGroup.Wait instead of at the spawn point
 	SMTLogDir    string
 	Timeouts     [4]int
 }
@@ -648,6 +649,7 @@ func (i *interpreter) runPath(entry *ssa.Function, prefix []decision) (res *path
 	i.fs = nil
 	i.hashes = nil
 	i.clock = 0
+	i.pendingGo = nil
 	defer func() {
 		p := recover()
 		if p == nil {
@@ -703,6 +705,7 @@ func (i *interpreter) runPath(entry *ssa.Function, prefix []decision) (res *path
 		}
 	}()
 	callSSA(i, nil, token.NoPos, entry, nil, nil)
+	i.runPendingGo()
 	return res
 }
 
